@@ -163,6 +163,16 @@ def detection_stress():
             b"[1, 2]\n", b"{a: 1}\n", b"[]", b"\x90", b"\x80", b"\x91\x90", b"true", b"x", b"\xff\xfe", b"\x00", b" ",
             b"\xef\xbb\xbfa: 1\n", b"a: 1\n".decode().encode("utf-16"), b"[1]".decode().encode("utf-16-le"),
             b"a = 1\n" * 3, b"---\na: 1\n", b"--- [1]\n", b'"s"', b"'s'", b"a=1", b"1: 2", b"[x]\n"]
+    # texts that open with a complete JSON scalar and go on as YAML or TOML; leading white space; a BOM before each format
+    res += [b"404: Not Found\n", b'2024 = "year"\n', b'"k": v\n', b"true: 1\n", b"null = 1\n", b"1.5: x\n", b'"a" = 1\n', b"-1: [2]\n",
+            b'\n{"a":1}{"b":2}\n', b'  "just a string"\n', b"\n\n[1]\n", b" \ta: 1\n", b"\r\n[t]\nk = 1\n", b"\n\x81\xa1a\x01",
+            b"\xef\xbb\xbf[1]", b'\xef\xbb\xbf{"a":1} {"b":2}', b"\xef\xbb\xbfa = 1\n", b"[servers]\n", b"[[servers]]\n", b"[a.b] # c\n", b"# c\n[a]\n"]
+    # non-ASCII text long enough that a look-ahead of 1 KiB, 8 KiB or 16 KiB ends inside a character, in each text format
+    for shift in range(4):
+        pad = "x" * shift
+        res.append((pad + 'k = "' + "\u00e9\u20ac" * 3500 + '"\n').encode())
+        res.append(('{"' + pad + 'k": "' + "\u00e9" * 9000 + '"} {"b": 2}').encode())
+        res.append(("[t]\n" + pad + 'k = "v" # ' + "\u00e9" * 600 + "\n" + "".join('k%d = "\u20ac" # c\n' % i for i in range(900))).encode())
     return res
 
 
